@@ -51,14 +51,14 @@ CHECKS = {
             "A real connected (or still connecting) pair under the focus-coop scheduler: 2-4 tasks create in-band channels and negotiated channels with explicit ids on both peers, close them locally and remotely and send, while SCTP start-up, the open handshake and the accept loop of both peers are scheduled at every lock/atomic site of datachannel.go and sctptransport.go; a sampler records every channel's stream id at every step. Oracle: a pion-assigned id is even iff the local DTLS role is client, is never 65535, is not the id of a channel that already had it, and an id once set never changes.",
             PC_NOTE + " Both DTLS roles are covered by letting either peer offer. Collisions caused by an application passing an explicit id that is already in use are counted, not reported (pion does not check them; the property is about assigned ids).", TECH_COOP + " (focus-coop on datachannel.go/sctptransport.go inside a whole-pair simulation)", "§6 C18"),
     "C21": ("pcsim", "exploration",
-            "Two real PeerConnections on the simulated network are brought to one of five points of the connection's life (nothing negotiated, offer applied and gathering, ICE/DTLS in progress, connected, data and media flowing); 1-4 goroutines then call Close/GracefulClose on one peer at seeded fake-time offsets (0-1500 ms, many at the same instant), optionally while another goroutine keeps calling the mutating API and while the peer's event handlers take 0-700 ms of fake time on the connection's own goroutines. Oracle: every call returns (180 s fake budget); signaling and connection state are closed and stay closed; each of 10 mutating calls returns InvalidStateError; the connection-state handler reports nothing after closed; at the first quiescent instant after a GracefulClose returned no goroutine started by that peer (pprof-label attribution, runtime goroutine profile) is alive.",
+            "Two real PeerConnections on the simulated network are brought to one of five points of the connection's life (nothing negotiated, offer applied and gathering, ICE/DTLS in progress, connected, data and media flowing); 1-4 goroutines then call Close/GracefulClose on one peer at seeded fake-time offsets (0-1500 ms, many at the same instant), optionally while another goroutine keeps calling the mutating API and while the peer's event handlers take 0-700 ms of fake time on the connection's own goroutines. Oracle: every call returns (180 s fake budget); signaling and connection state are closed and stay closed; each of 10 mutating calls returns InvalidStateError; the connection-state handler reports nothing after closed; at the first quiescent instant after a GracefulClose returned no goroutine started by that peer (pprof-label attribution, runtime goroutine profile) is alive. A second batch (harness C21D) runs 2-4 overlapping close calls as tasks of the seeded cooperative scheduler with scheduling points at every lock/atomic site of the close path (PeerConnection.close and the connection-state update, operations.go, the Stop/close functions of ICE transport and gatherer, DTLS, SCTP, transceivers), same oracles without the census.",
             PC_NOTE + " The interleaving of close calls started at the same fake instant is the Go scheduler's (GOMAXPROCS=1 worker), not chosen by the PRNG; what the PRNG chooses is the point of the connection's life, the call mix and offsets, handler durations and the network.", TECH_PC + "; goroutine census via pprof labels at a quiescent instant", "§6 C21"),
     "C40": ("pcsim", "exploration",
             "One seeded generator of concurrent programs (2-6 goroutines x 3-10 calls over AddTrack, RemoveTrack, AddTransceiver*, CreateDataChannel, Get{Transceivers,Senders,Receivers}, the state/description getters, GetStats, WriteRTP, a final Close/GracefulClose in half the cases, plus one goroutine doing 1-3 serialized offer/answer rounds with a second real PeerConnection), run two ways. (a) Race-detector build, real goroutines, real time, perturbation (yield / microsecond sleep) at every instrumented lock/atomic/receive site with the shim in a bookkeeping-free mode; oracle: the Go race detector (first report ends the run) and a 45 s watchdog for calls that do not return. (b) Ordinary build in a fake-time bubble under the seeded cooperative scheduler with scheduling points at every lock/atomic site of peerconnection.go, rtptransceiver.go, rtpsender.go, rtpreceiver.go, sctptransport.go, stats_go.go, track_local_static.go; oracle: every task finishes (a lock-order or wait-for cycle leaves tasks that can never run).",
             "In (a) the interleaving is the Go runtime's, perturbed, not chosen by the seed: a scheduler that decides every step hands control between goroutines through synchronisation the race detector would count as happens-before, hiding the races it is there to find; the seed decides the program, and replay is statistical (decision-exact, 10 fresh processes). The simulated network's own mutex is shared by packet-sending goroutines and may hide races between them. (b) is replayable from its recorded schedule like the other cooperative checks. " + COOP_NOTE,
             "seeded concurrent-program generation; (a) Go race detector + site perturbation, (b) deterministic simulation under the seeded cooperative scheduler (deadlock search)", "§6 C40"),
     "C30": ("pcsim", "exploration",
-            "A hostile remote peer against a real victim PeerConnection in a fake-time bubble: valid browser-like descriptions (RTX ssrc-groups, simulcast rids, Plan-B multi-source sections, text sections) with 0-8 seeded line-grammar mutations (delete/duplicate/swap/truncate lines, boundary numbers, ~170 hostile attribute and m= lines, m-line rewrites, raw bytes) applied as offer (+CreateAnswer, SetLocalDescription, mutated re-offer) or as answer to the victim's own offer, under Unified Plan / Plan B / Unified-Plan-with-fallback and four kinds of local state; mutated candidate strings through AddICECandidate; and, on a really connected pair, 5-40 hostile RTP and 2-15 hostile RTCP packets protected with the sender's own SRTP/SRTCP keys (unknown SSRCs, any payload type, mid/rid/rrid extensions, lying lengths, truncation). After every step the bubble runs to quiescence for seconds of fake time, and the connection is closed at the end, so background work (operations queue, transport and receiver start-up, undeclared-SSRC probing) happens inside the run. Oracle: no panic on the calling goroutine (caught, attributed to the call) and none on any other goroutine (worker death, attributed by message and first pion frame).",
+            "A hostile remote peer against a real victim PeerConnection in a fake-time bubble: valid browser-like descriptions (RTX ssrc-groups, simulcast rids, Plan-B multi-source sections, text sections) with 0-8 seeded line-grammar mutations (delete/duplicate/swap/truncate lines, boundary numbers, ~170 hostile attribute and m= lines, m-line rewrites, raw bytes) applied as offer (+CreateAnswer, SetLocalDescription, mutated re-offer) or as answer to the victim's own offer, under Unified Plan / Plan B / Unified-Plan-with-fallback and four kinds of local state; mutated candidate strings through AddICECandidate; and, on a really connected pair, 5-40 hostile RTP and 2-15 hostile RTCP packets protected with the sender's own SRTP/SRTCP keys (unknown SSRCs, any payload type, mid/rid/rrid extensions, lying lengths, truncation); and a live hostile peer: a real PeerConnection whose own offer is mutated on the way (also: every codec of a section unknown, direction flipped with an extra a=ssrc), so that the connection can come up and receivers really start. After every step the bubble runs to quiescence for seconds of fake time, and the connection is closed at the end, so background work (operations queue, transport and receiver start-up, undeclared-SSRC probing) happens inside the run. Oracle: no panic on the calling goroutine (caught, attributed to the call) and none on any other goroutine (worker death, attributed by message and first pion frame).",
             PC_NOTE + " Mutation is seeded and grammar-based, not coverage-guided.", TECH_PC + "; process-survival oracle", "§6 C30"),
     "C20": ("pcsim", "exploration",
             "Same engine as C18 with local Close/GracefulClose, remote close, Send and PeerConnection.Close/GracefulClose tasks around the open handshake. A sampler reads readyState of every channel object (local and announced, both peers) at every scheduling step. Oracle: the sampled sequence never moves backwards along connecting < open < closing < closed; OnOpen and OnClose each run at most once per registration; Send on a channel that is not open returns an error; a channel on which Close returned is closed once both PeerConnections are closed.",
